@@ -51,6 +51,9 @@ def run_case(case, ctx):
                 spikeless=['none', 'first', 'middle', 'last'][int(rng.integers(0, 4))],
                 features=['none', 'dense', 'sparse', 'sparse'][int(rng.integers(0, 4))],
                 probes=bool(rng.integers(0, 2)), rate=[1., 100., 30000.][int(rng.integers(0, 3))], ncdat_extra=0)
+    opts.update(dtype_amps=['float64', 'float32'][int(rng.integers(0, 2))],
+                dtype_templates=['float32', 'float32', 'float64'][int(rng.integers(0, 3))],
+                dtype_feat=['float32', 'float64'][int(rng.integers(0, 2))])
     spec = random_spec(rng, **opts)
     if rng.random() < 0.25:
         spec.notes['template_scaling'] = [8.0, 0.5][int(rng.integers(0, 2))]   # params.py option; not part of the amplitude formulas
